@@ -23,7 +23,7 @@ class Prop(BaseProp):
             "bivariate call form. distinct = interleaving words incl. keyword regime and interval kind")
     budget = {"quick": 900, "thorough": 160000}
     must_see = ["interval_none", "interval_bp_bp", "interval_half_half", "interval_same_piece", "interval_from_start",
-                "interval_to_end", "interval_list", "interval_without_events", "N>=3", "bivariate_form", "RI_true", "max_tau_positive",
+                "interval_to_end", "interval_list", "interval_list_touching", "interval_list_not_in_time_order", "interval_without_events", "N>=3", "bivariate_form", "RI_true", "max_tau_positive",
                 "mrts_positive", "mrts_auto", "order_checked", "sync_checked", "indices_selection", "indices_non_prefix"]
     arm_files = [("pyspike/PieceWiseConstFunc.py", ["integral", "avrg"]), ("pyspike/PieceWiseLinFunc.py", ["integral", "avrg"]),
                  ("pyspike/DiscreteFunc.py", ["integral", "avrg"]), ("pyspike/generic.py", None)]
@@ -47,8 +47,18 @@ class Prop(BaseProp):
                 m1 = rng.choice(cut)
                 m2 = rng.choice([t for t in cut if t >= m1] + [b])
                 ivs = [[a, m1], [m2, b]]
+                if rng.random() < 0.3:
+                    # three windows; the middle one may contain no event at all
+                    inner = sorted({t for t in cut if m2 <= t <= b} | {m2, b})
+                    m3 = rng.choice(inner)
+                    m4 = rng.choice([t for t in inner if t >= m3])
+                    ivs = [[a, m1], [m2, m3], [m4, b]]
                 ivs = [iv for iv in ivs if iv[1] > iv[0]]
-                if len(ivs) == 2:
+                if len(ivs) >= 2:
+                    case["list_touching"] = any(ivs[q][1] == ivs[q + 1][0] for q in range(len(ivs) - 1))
+                    if rng.random() < 0.4:
+                        ivs = ivs[::-1] if rng.random() < 0.5 else rng.sample(ivs, len(ivs))     # any order
+                        case["list_unordered"] = ivs != sorted(ivs)
                     case["interval"] = ivs
                     case["ikind"] = "list"
                 else:
@@ -72,6 +82,10 @@ class Prop(BaseProp):
         kwc = case["kw"]
         iv = case["interval"]
         ctx.count("interval_" + case["ikind"])
+        if case.get("list_touching"):
+            ctx.count("interval_list_touching")
+        if case.get("list_unordered"):
+            ctx.count("interval_list_not_in_time_order")
         is_list = iv is not None and isinstance(iv[0], (list, tuple))
         if is_list:
             ivs = [(float(u), float(v)) for u, v in iv]
